@@ -73,7 +73,7 @@ class NumEdit(Edit):
         Return true for allowed characters.
         """
         if len(ch) == 1:
-            if ch.upper() in self._allowed:
+            if ch.isascii() and ch.upper() in self._allowed:
                 # nothing can be typed in front of the sign
                 return not (self.edit_pos == 0 and self.edit_text[:1] == "-")
 
